@@ -7369,6 +7369,7 @@ pub(crate) fn eval(env: &mut Env, session: &Session) -> Result<Value, EvalError>
                 // evaluation, so we know the first value of `x`.
                 if matches!(outer_expr.expr_, Expression_::ForIn(_, _, _))
                     && matches!(expr_state, ExpressionState::PartiallyEvaluated(_))
+                    && !env.stop_at_last_toplevel_expr
                 {
                     return Ok(Value::unit());
                 }
@@ -8015,10 +8016,13 @@ pub(crate) fn eval_toplevel_exprs_then_stop(
     };
 
     let old_stop_at_expr_id = env.stop_at_expr_id;
+    let old_stop_at_last_toplevel_expr = env.stop_at_last_toplevel_expr;
     env.stop_at_expr_id = Some(last_expr.id);
+    env.stop_at_last_toplevel_expr = true;
 
     let eval_result = eval_toplevel_exprs(&exprs, env, session);
     env.stop_at_expr_id = old_stop_at_expr_id;
+    env.stop_at_last_toplevel_expr = old_stop_at_last_toplevel_expr;
 
     let mut values = eval_result?;
     Ok(values.pop())
